@@ -32,6 +32,22 @@ def check(tier, seed):
         ck.cov["witness_replay_on_implementation"] = tags
         ck.obligation("Coq witnesses C04_refuted_* reproduce on the implementation (F2a, F2b)", tags == [["F2a"], ["F2b"]], str(tags))
 
+    # a hand-off that arrives while the target's sender is being torn down (its queue is closed but still registered, or the
+    # shutdown signal has fired) must be reported as NOT delivered, so that the receiver keeps the task and retries
+    from . import c09
+    cases = [c for c in c09.dv_cases() if c.split()[1] == "msg" and c.split()[2] in ("closed", "closedshutdown", "shutdown")]
+    errd, dv = c09.run_dv(cases, "c04")
+    if errd:
+        ck.obligation("hand-off during teardown", False, errd[:1500])
+    else:
+        badd = [i for i, c in enumerate(cases) if i >= len(dv) or dv[i] != c09.dv_spec(c)]
+        ck.obligation("a hand-off to a closed / shutting-down target queue is never reported delivered unless a remote owner took it (%d combinations on the real DeliverMessagesToShardOwner)" % len(cases),
+                      not badd, "; ".join("%s -> %s" % (cases[i], dv[i] if i < len(dv) else None) for i in badd[:3]))
+        if badd:
+            i = badd[0]
+            ck.violation({"kind": "decision", "case": cases[i], "impl": dv[i] if i < len(dv) else None, "expected": c09.dv_spec(cases[i])},
+                         "a task handed to a target queue that its dying stream had already closed was reported delivered (%s -> %s): the receiver drops it and later acknowledgements pass it" % (cases[i], dv[i] if i < len(dv) else None))
+
     def vary(i, r):
         return {"big": i % 6 == 0, "liveness": False}
     R.engine(ck, PROP, tier, seed, {"faults": True, "vary": vary}, ("C01",), 200, 10000, proof_ok, nontrivial, "", allow_tags=("F2a", "F2b"), project=("K",))
@@ -40,7 +56,11 @@ def check(tier, seed):
                           "or reported; non-trivial = history containing a break or restart")
 
 
-replay = R.replay
+def replay(data):
+    if data.get("kind") == "decision":
+        from . import c09
+        return c09.replay(data)
+    return R.replay(data)
 
 MANIFEST = {
     "technique": "Coq refutation witnesses (vm_compute) for the two known findings + partial theorems; differential correspondence incl. fault events; safe-ack monitor with finding classification",
